@@ -4,6 +4,7 @@ the encoder loop, the decoder loop, `class_factory`, and the induction on the
 nesting depth.  Core Lean only.
 -/
 import XsdataModel.Proofs.C04Lemmas
+import XsdataModel.Proofs.C01NTokens
 
 namespace Proofs.C04
 open Py Xs.Bind Xs.Dict
@@ -110,7 +111,7 @@ theorem valOKj_unpack {e : BEnv} {Γ : Ctx} {fac : Factory} {n : Nat} {c : Class
       Γ.find c = some ci ∧ metaOf Γ c = .ok m ∧
       classOKj ci m = true ∧ ci.id = c ∧ fs.map (·.1) = ci.fields.map (·.name) ∧
       (∀ var ∈ allVars m, ∃ x, kvGet fs var.name = some x ∧
-        valueOKj (valOKj e Γ fac n) Γ fac var x = true ∧ (var.init = true ∨ fixedOK e var x = true)) ∧
+        valueOKj e (valOKj e Γ fac n) Γ fac var x = true ∧ (var.init = true ∨ fixedOK e var x = true)) ∧
       (∀ kv ∈ fs, ∀ f ∈ ci.fields, f.name = kv.1 →
         (if f.init then keptBy fac kv.2 || defaultIs f .none else defaultIs f kv.2) = true) := by
   unfold valOKj at h
@@ -591,7 +592,12 @@ theorem any_isGeneric {e : BEnv} {Γ : Ctx} {fac : Factory} {n : Nat} {x : Val}
           · simp [hattr, attrsValueOKj] at hval
           · by_cases hw : v.isWildcard = true
             · simp [hattr, hw, wildValueOKj, hl] at hval
-            · simp [hattr, hw, typedValueOKj, hl] at hval
+            · by_cases ht : v.tokens = true
+              · simp only [hattr, hw, ht, Bool.false_eq_true, if_false, if_true, tokensValueOKj] at hval
+                split at hval
+                · simp [Xs.Bind.FN.tokensOK] at hval
+                · cases hval
+              · simp [hattr, hw, ht, typedValueOKj, hl] at hval
         · simp [ha, attrsValueOKj] at hval
       | _ => cases fac <;> rfl
     have : k ∈ encKeys Γ fac x := by
@@ -716,44 +722,160 @@ theorem value_rt_wild (e : BEnv) (Γ : Ctx) (fac : Factory) (n : Nat) (ih : IH e
     | derived q y t => simp [wildItemOKj] at hitem
     | attrs a => simp [wildItemOKj] at hitem
 
+/-! ### a tokens field -/
+
+theorem varTokens_facts {var : XmlVar} (h : varTokens var = true) :
+    var.tokens = true ∧ var.listElement = false ∧ var.isAttributes = false ∧ var.isWildcard = false ∧
+    var.isElements = false ∧ var.anyType = false ∧ wrapperName var.toVarCore = none ∧
+    ∃ t, var.types = [.prim t] ∧ t ≠ .qname := by
+  simp only [varTokens, Bool.and_eq_true, Bool.not_eq_true', Option.isNone_iff_eq_none] at h
+  obtain ⟨⟨⟨⟨⟨⟨⟨⟨h1, h2⟩, h3⟩, h4⟩, h5⟩, h6⟩, _⟩, h8⟩, h9⟩ := h
+  refine ⟨h1, h2, h3, h4, h5, h6, h8, ?_⟩
+  split at h9
+  · rename_i t ht; exact ⟨t, ht, by simpa using h9⟩
+  · cases h9
+
+theorem prims_of_tokensOK (e : BEnv) (t : PT) (ys : List Val) (h : Xs.Bind.FN.tokensOK e t (.list ys) = true) :
+    ∃ ps : List PVal, ys = ps.map Val.prim ∧
+      ∀ p ∈ ps, Xs.Bind.F1.primHasType p t = true ∧ Xs.Bind.FN.tokenOK e p = true := by
+  simp only [Xs.Bind.FN.tokensOK, List.all_eq_true] at h
+  induction ys with
+  | nil => exact ⟨[], rfl, fun p hp => by cases hp⟩
+  | cons y ys ih =>
+    obtain ⟨ps, hps, hall⟩ := ih (fun z hz => h z (List.mem_cons_of_mem _ hz))
+    have hy := h y (List.mem_cons_self ..)
+    cases y with
+    | prim p =>
+      simp only [Bool.and_eq_true] at hy
+      exact ⟨p :: ps, by simp [hps], fun q hq => by
+        rcases List.mem_cons.mp hq with rfl | hq
+        · exact hy
+        · exact hall q hq⟩
+    | _ => simp at hy
+
+theorem pvalType_of_hasType {p : PVal} {t : PT} (h : Xs.Bind.F1.primHasType p t = true) : pvalType p = t := by
+  cases p <;> cases t <;> simp [Xs.Bind.F1.primHasType] at h <;> rfl
+
+theorem value_rt_tokens (e : BEnv) (Γ : Ctx) (fac : Factory) (n : Nat) (cfg : ParserConfig)
+    (m : XmlMeta) (var : XmlVar) (hv : varTokens var = true) (x : Val) (hx : tokensValueOKj e var x = true) :
+    ∃ j, encVarWith fac (encModelF Γ fac {} n) var x = .ok j ∧ j.isNull = isNoneV x ∧ j.native = true ∧
+      varMatches (keyOf var.toVarCore) j var = true ∧
+      ∃ j', unwrapValue var j = .ok j' ∧ (j'.isNull && var.listElement) = false ∧
+        bindValueWith e (bindDataclassF e Γ n) Γ cfg m var j' = ND.pure x := by
+  obtain ⟨htok, hl, ha, hwc, hel, hat, hw, t, hty, hq⟩ := varTokens_facts hv
+  simp only [tokensValueOKj, hty] at hx
+  cases x with
+  | list ys =>
+    obtain ⟨ps, hps, hall⟩ := prims_of_tokensOK e t ys hx
+    subst hps
+    have henc : (ps.map Val.prim).mapM (encElemWith (encModelF Γ fac {} n)) = .ok (ps.map encPrim) := by
+      clear hall hx
+      induction ps with
+      | nil => rfl
+      | cons p ps ih =>
+        rw [List.map_cons, List.mapM_cons, ih]
+        simp [encElemWith, encItemWith, bind, Except.bind, pure, Except.pure]
+    have hser : (ps.map encPrim).mapM serScalar = .ok (ps.map serPrim) := by
+      have hne : ∀ p ∈ ps, pvalType p ≠ .qname := fun p hp => by rw [pvalType_of_hasType (hall p hp).1]; exact hq
+      clear hall hx henc
+      induction ps with
+      | nil => rfl
+      | cons p ps ih =>
+        rw [List.map_cons, List.mapM_cons, ih (fun q hq' => hne q (List.mem_cons_of_mem _ hq'))]
+        have := hne p (List.mem_cons_self ..)
+        cases p with
+        | str s => simp [encPrim, serScalar, serPrim, bind, Except.bind, pure, Except.pure]
+        | int i => simp [encPrim, serScalar, serPrim, bind, Except.bind, pure, Except.pure]
+        | bool b => cases b <;> simp [encPrim, serScalar, serPrim, bind, Except.bind, pure, Except.pure]
+        | qname q => exact absurd rfl this
+    have hsplit : pySplitWs e.py (" ".toList.intercalate (ps.map serPrim)) = ps.map serPrim := by
+      apply Proofs.C01.pySplitWs_join
+      intro s hs
+      obtain ⟨p, hp, rfl⟩ := List.mem_map.mp hs
+      exact Proofs.C01.tokStr_serPrim e (hall p hp).1 (hall p hp).2
+    have hdes : (ps.map serPrim).mapM (fun s => deserialize e s [.prim t] []) = some ps := by
+      have hty' : ∀ p ∈ ps, pvalType p = t := fun p hp => pvalType_of_hasType (hall p hp).1
+      clear hall hx henc hser hsplit
+      induction ps with
+      | nil => rfl
+      | cons p ps ih =>
+        rw [List.map_cons, List.mapM_cons, ih (fun q hq' => hty' q (List.mem_cons_of_mem _ hq'))]
+        have h1 := hty' p (List.mem_cons_self ..)
+        have h2 : pvalType p ≠ .qname := by rw [h1]; exact hq
+        have := deOne_serPrim e p h2
+        rw [h1] at this
+        simp [deserialize, List.findSome?, this]
+    have hnat : (J.arr (ps.map encPrim)).native = true := by
+      simp only [J.native]
+      clear hall hx henc hser hsplit hdes
+      induction ps with
+      | nil => rfl
+      | cons p ps ih =>
+        simp only [List.map_cons, J.nativeList, ih, Bool.and_true]
+        cases p <;> rfl
+    have hat' : var.toVarCore.anyType = false := hat
+    have hwc' : var.toVarCore.isWildcard = false := hwc
+    have htok' : var.toVarCore.tokens = true := htok
+    have hty' : var.toVarCore.types = [.prim t] := hty
+    refine ⟨.arr (ps.map encPrim), ?_, rfl, hnat, ?_, .arr (ps.map encPrim), ?_, by simp [J.isNull], ?_⟩
+    · simp only [encVarWith, hw, encCoreWith, henc]; rfl
+    · simp [varMatches, keyOf, hw, J.isArr, varIsList, htok]
+    · simp [unwrapValue, hw]
+    · unfold bindValueWith
+      simp only [ha, Bool.false_eq_true, if_false, hl]
+      unfold bindItemWith
+      simp only [ha, Bool.false_eq_true, if_false, Xs.Dict.bindText, hel, bindTextPlain, hat', hwc', Bool.or_self,
+        htok', Bool.not_true, Bool.false_and, serializeJ, hser, Except.map]
+      unfold parseVar
+      simp only [Option.getD_none, htok', if_true, hsplit, hty', hdes]
+      simp [List.map_map, Function.comp_def]
+  | none => simp [Xs.Bind.FN.tokensOK] at hx
+  | prim p => simp [Xs.Bind.FN.tokensOK] at hx
+  | obj c fs => simp [Xs.Bind.FN.tokensOK] at hx
+  | any q t' tl a cs => simp [Xs.Bind.FN.tokensOK] at hx
+  | derived q y t' => simp [Xs.Bind.FN.tokensOK] at hx
+  | attrs a => simp [Xs.Bind.FN.tokensOK] at hx
+
 /-! ### any var of the fragment -/
+
+theorem varOKj_cases {var : XmlVar} (hv : varOKj var = true) :
+    varTyped var = true ∨ varAttrs var = true ∨ varWild var = true ∨ varTokens var = true := by
+  simp only [varOKj, Bool.or_eq_true] at hv
+  rcases hv with ((h | h) | h) | h
+  · exact Or.inl h
+  · exact Or.inr (Or.inl h)
+  · exact Or.inr (Or.inr (Or.inl h))
+  · exact Or.inr (Or.inr (Or.inr h))
 
 theorem value_rt (e : BEnv) (Γ : Ctx) (fac : Factory) (n : Nat) (ih : IH e Γ fac n) (cfg : ParserConfig)
     (m : XmlMeta) (var : XmlVar) (hv : varOKj var = true) (x : Val)
-    (hx : valueOKj (valOKj e Γ fac n) Γ fac var x = true) :
+    (hx : valueOKj e (valOKj e Γ fac n) Γ fac var x = true) :
     ∃ j, encVarWith fac (encModelF Γ fac {} n) var x = .ok j ∧ j.isNull = isNoneV x ∧ j.native = true ∧
       varMatches (keyOf var.toVarCore) j var = true ∧
       ∃ j', unwrapValue var j = .ok j' ∧ (j'.isNull && var.listElement) = false ∧
         bindValueWith e (bindDataclassF e Γ n) Γ cfg m var j' = ND.pure x := by
   unfold valueOKj at hx
-  simp only [varOKj, Bool.or_eq_true] at hv
-  by_cases ha : var.isAttributes = true
-  · simp only [ha, if_true] at hx
-    rcases hv with (hv | hv) | hv
-    · have := (varTyped_facts hv).1; rw [ha] at this; cases this
-    · exact value_rt_attrs e Γ fac n cfg m var hv x hx
-    · have := (varWild_facts hv).2.1; rw [ha] at this; cases this
-  · have ha' : var.isAttributes = false := by simpa using ha
-    by_cases hw : var.isWildcard = true
-    · simp only [ha', Bool.false_eq_true, if_false, hw, if_true] at hx
-      rcases hv with (hv | hv) | hv
-      · have := (varTyped_facts hv).2.1; rw [hw] at this; cases this
-      · simp [varAttrs, ha'] at hv
-      · exact value_rt_wild e Γ fac n ih cfg m var hv x hx
-    · have hw' : var.isWildcard = false := by simpa using hw
-      simp only [ha', Bool.false_eq_true, if_false, hw'] at hx
-      rcases hv with (hv | hv) | hv
-      · exact value_rt_typed e Γ fac n ih cfg m var hv x hx
-      · simp [varAttrs, ha'] at hv
-      · simp [varWild, hw'] at hv
+  rcases varOKj_cases hv with hv | hv | hv | hv
+  · obtain ⟨h1, h2, _, _, _, _, h7⟩ := varTyped_facts hv
+    simp only [h1, h2, h7, Bool.false_eq_true, if_false] at hx
+    exact value_rt_typed e Γ fac n ih cfg m var hv x hx
+  · have ha : var.isAttributes = true := by simp only [varAttrs, Bool.and_eq_true] at hv; exact hv.1.1.1
+    simp only [ha, if_true] at hx
+    exact value_rt_attrs e Γ fac n cfg m var hv x hx
+  · obtain ⟨hw, ha, _, _, _⟩ := varWild_facts hv
+    simp only [ha, hw, Bool.false_eq_true, if_false, if_true] at hx
+    exact value_rt_wild e Γ fac n ih cfg m var hv x hx
+  · obtain ⟨ht, _, ha, hw, _⟩ := varTokens_facts hv
+    simp only [ha, hw, ht, Bool.false_eq_true, if_false, if_true] at hx
+    exact value_rt_tokens e Γ fac n cfg m var hv x hx
 
 theorem varOKj_wrapper_ne {var : XmlVar} (hv : varOKj var = true) (w : Str)
     (hw : wrapperName var.toVarCore = some w) : var.localName ≠ w := by
-  simp only [varOKj, Bool.or_eq_true] at hv
-  rcases hv with (hv | hv) | hv
+  rcases varOKj_cases hv with hv | hv | hv | hv
   · exact (varTyped_wrapper hv w hw).2
   · simp [varAttrs, hw] at hv
   · have := (varWild_facts hv).2.2.2.2; rw [hw] at this; cases this
+  · have := (varTokens_facts hv).2.2.2.2.2.2.1; rw [hw] at this; cases this
 
 /-! ### the two loops -/
 
@@ -1185,8 +1307,8 @@ theorem valOKu_valOKj (e : BEnv) (Γ : Ctx) (fac : Factory) (huni : noSubclassPo
       cases x with
       | any q t tl a cs => exact ih _ _ hx
       | _ => exact hx
-    have hval : ∀ (var : XmlVar) (x : Val), valueOKu (valOKu e Γ fac n) Γ var x = true →
-        valueOKj (valOKj e Γ fac n) Γ fac var x = true := by
+    have hval : ∀ (var : XmlVar) (x : Val), valueOKu e (valOKu e Γ fac n) Γ var x = true →
+        valueOKj e (valOKj e Γ fac n) Γ fac var x = true := by
       intro var x hx
       unfold valueOKu at hx
       unfold valueOKj
@@ -1209,7 +1331,11 @@ theorem valOKu_valOKj (e : BEnv) (Γ : Ctx) (fac : Factory) (huni : noSubclassPo
             | list xs => exact hx
             | _ => exact hwild _ hx
         · have hw' : var.isWildcard = false := by simpa using hw
-          simp only [hw', Bool.false_eq_true, if_false, typedValueOKu, typedValueOKj] at hx ⊢
+          simp only [hw', Bool.false_eq_true, if_false] at hx ⊢
+          by_cases htk : var.tokens = true
+          · simpa [htk] using hx
+          have htk' : var.tokens = false := by simpa using htk
+          simp only [htk', Bool.false_eq_true, if_false, typedValueOKu, typedValueOKj] at hx ⊢
           by_cases hl : var.listElement = true
           · simp only [hl, if_true] at hx ⊢
             cases x with
